@@ -43,6 +43,7 @@ def run(ctx):
         raise vf.Infra("harness produced %d secret records" % len(secs))
     vf.write_ndjson(d + "/C07_trace.ndjson", recs)
     tv = vf.tlc(ctx, "TraceConfStore", "TraceConfStore_c07.cfg", workers=1, timeout=900)
+    seen_api = set()
     for bad in tv.tagged("BAD"):
         if bad["rec"] == "placeholder":
             shown = sorted({x["shown"] for x in secs if x["shownAt"]})
@@ -51,12 +52,25 @@ def run(ctx):
             continue
         rec = recs[bad["l"] - 1]
         what = "leak" if rec["leak"] else ("store-modified" if rec["storeBefore"] != rec["storeAfter"] else "secret-shown")
+        key = (what, rec["position"], rec["kind"], rec["endpoint"].split("?")[0])
+        if key in seen_api:
+            continue
+        seen_api.add(key)
         ctx.violation({"kind": "api", "what": what, "position": rec["position"], "secretKind": rec["kind"], "endpoint": rec["endpoint"]},
                       "GET /v3/config/%s with a %s secret at %s (case %d, mode %s): %s" % (
                           rec["endpoint"], rec["kind"], rec["position"], rec["case"], rec["mode"],
                           {"leak": "the response contains the secret",
                            "store-modified": "producing the response modified the live configuration",
                            "secret-shown": "the secret is shown in place"}[what]))
+    if ctx.thorough:
+        # self-test: clean records with one corrupted field must be rejected by TLC
+        clean = next(x for x in secs if x["shownAt"] and not x["leak"])
+        vf.write_ndjson(d + "/C07_trace.ndjson", [clean, dict(clean, leak=True), dict(clean, storeAfter="corrupted"),
+                                                  dict(clean, shown=clean["secret"])])
+        st = vf.tlc(ctx, "TraceConfStore", "TraceConfStore_c07.cfg", workers=1, timeout=300)
+        if sorted(b["l"] for b in st.tagged("BAD")) != [0, 2, 3, 4]:
+            raise vf.Infra("self-test: corrupted trace records were not rejected: %s" % st.tagged("BAD"))
+        ctx.set("selftest_corrupted_trace_rejected", True)
     ctx.set("secret_placements", len(cases))
     ctx.set("secret_records", len(secs))
     ctx.set("positions_shown_in_a_view", len([x for x in secs if x["shownAt"]]))
@@ -87,6 +101,12 @@ def run(ctx):
         ctx.violation({"kind": "dump", "header": rec["canon"], "spelling": rec["name"]},
                       "the debug dump of a request contains the value of credential header %s (sent as '%s'), e.g. case %d"
                       % (rec["canon"], rec["name"], rec["case"]))
+    if ctx.thorough:
+        clean = next(x for x in lines if x["credential"] and not x["leak"])
+        vf.write_ndjson(d + "/C07_dump_trace.ndjson", [clean, dict(clean, leak=True)])
+        st = vf.tlc(ctx, "TraceDumpReq", "TraceDumpReq.cfg", workers=1, timeout=300)
+        if [b["l"] for b in st.tagged("BAD")] != [2]:
+            raise vf.Infra("self-test: corrupted dump record was not rejected: %s" % st.tagged("BAD"))
     lost = len([x for x in lines if not x["bodyKept"]])
     if lost:
         ctx.note("%d request dumps do not contain the request body (DRIFT, not in the statement)" % lost)
